@@ -105,6 +105,69 @@ def parse_chain(h, el, where):
     return (short, long, arg, ext)
 
 
+TYPESET_ATTR = {}
+
+
+def interpret_letters(h):
+    """the `match option.spec.short { 'f' => … }` arms of typeset/syntax.rs `interpret`: which letter plays
+    which role (decided by what the arm does, not by its position)"""
+    src = non_test(strip_comments(h.read(f"{SRC}/typeset/syntax.rs")))
+    m = re.search(r"match\s+option\s*\.\s*spec\s*\.\s*short\s*\{", src)
+    if not m:
+        h.fail("args: anchor not found: `match option.spec.short` in typeset/syntax.rs interpret")
+    body = h.item_body(src[m.start():], r"match\s+option\s*\.\s*spec\s*\.\s*short\s*", "typeset interpret match")
+    roles = []
+    default = None
+    pos = 0
+    arms = []
+    # an arm is `PATTERN => EXPR,` or `PATTERN => { … }` — split at top level
+    depth = 0
+    cur = ""
+    for ch in body:
+        if ch in "([{":
+            depth += 1
+        elif ch in ")]}":
+            depth -= 1
+        cur += ch
+        if (ch == "," and depth == 0) or (ch == "}" and depth == 0):
+            if cur.strip(" ,\n"):
+                arms.append(cur.strip().rstrip(","))
+            cur = ""
+    if cur.strip(" ,\n"):
+        arms.append(cur.strip().rstrip(","))
+    for arm in arms:
+        if "=>" not in arm:
+            h.fail(f"args: typeset interpret: arm not understood: {arm}")
+        pat, act = arm.split("=>", 1)
+        act = re.sub(r"\s+", "", act)
+        if "functions_option_index=Some(index)" in act and "attrs" not in act:
+            role = "functions"
+        elif "global_option_index=Some(index)" in act and "attrs" not in act:
+            role = "global"
+        elif "print_option_index=Some(index)" in act and "print=true" in act:
+            role = "print"
+        elif re.fullmatch(r"attrs\.push\(\(index,(?:Attr::)?Export,!option\.state\)\)", act):
+            role = "unexport"
+        elif re.fullmatch(r"attrs\.push\(\(index,option\.spec\.attr\.unwrap\(\),option\.state\)\)", act):
+            role = "attr"
+        else:
+            h.fail(f"args: typeset interpret: action not understood: {arm}")
+        pats = [p.strip() for p in pat.split("|")]
+        for p_ in pats:
+            if p_ == "_":
+                if role != "attr":
+                    h.fail(f"args: typeset interpret: the default arm is not the attribute arm: {arm}")
+                default = role
+                continue
+            mm = re.fullmatch(r"'((?:\\.|[^'\\])+)'", p_)
+            if not mm or role == "attr":
+                h.fail(f"args: typeset interpret: pattern not understood: {arm}")
+            roles.append((h.rust_char(mm.group(1)), role))
+    if default != "attr" or len(roles) < 4:
+        h.fail(f"args: typeset interpret: arms lost ({roles}, default {default})")
+    return sorted(roles)
+
+
 def typeset_consts(h):
     """named constants of typeset::syntax::OptionSpec { short, long, attr }"""
     src = non_test(strip_comments(h.read(f"{SRC}/typeset/syntax.rs")))
@@ -115,6 +178,10 @@ def typeset_consts(h):
         l = re.search(r'long\s*:\s*"([^"\\]*)"', body)
         if not s or not l:
             h.fail(f"args: cannot read typeset option constant {m.group(1)}")
+        a = re.search(r"attr\s*:\s*(None|Some\(\s*(?:Attr::)?(ReadOnly|Export)\s*\))\s*(?:,|$)", body.strip())
+        if not a:
+            h.fail(f"args: cannot read the attr of typeset option constant {m.group(1)}: {body.strip()}")
+        TYPESET_ATTR[m.group(1)] = {None: 0, "ReadOnly": 1, "Export": 2}[a.group(2)]
         # typeset's parser has no option-arguments and cannot mark extensions
         out[m.group(1)] = (h.rust_char(s.group(1)), l.group(1), False, False)
     if not out:
@@ -126,6 +193,7 @@ def extract(h):
     root = os.path.join(h.REPO, SRC)
     tconsts = typeset_consts(h)
     tables = []  # (name, rel, const, rows)
+    typeset_tables = {}  # (rel, const) -> names of the typeset constants
     per_module = {}
     pending = []
     files = []
@@ -143,6 +211,7 @@ def extract(h):
             const = m.group(1)
             body = h.item_body(src[m.start():], header.pattern, f"{rel} {const}")
             rows = []
+            tkeys = []
             for el in split_top(body):
                 r = parse_chain(h, el, rel)
                 if r is None:
@@ -150,7 +219,12 @@ def extract(h):
                     if key not in tconsts:
                         h.fail(f"args: cannot read OptionSpec element in {rel} {const}: {el}")
                     r = tconsts[key]
+                    tkeys.append(key)
                 rows.append(r)
+            if tkeys and len(tkeys) != len(rows):
+                h.fail(f"args: {rel} {const} mixes typeset constants with common OptionSpec elements")
+            if tkeys:
+                typeset_tables[(rel, const)] = tkeys
             found[const] = rows
         mod = rel[len(SRC) + 1:-3].split("/")[0]
         # every table handed to parse_arguments must have been extracted (checked below)
@@ -195,6 +269,29 @@ def extract(h):
             readers.append(rel[len(SRC) + 1:])
     out.append("/-- files of yash-builtin (outside common/syntax.rs, outside tests) that read `OptionOccurrence::spelling` -/")
     out.append("def spellingReaders : List String := [" + ", ".join(h.lean_str(r) for r in readers) + "]\n")
+    # the tables of the typeset family with their `attr` (their own parser, typeset/syntax.rs `parse`)
+    trows = []
+    for name, rel, const, rows in tables:
+        if (rel, const) in typeset_tables:
+            keys = typeset_tables[(rel, const)]
+            cells = ", ".join(f"({h.lean_char(tconsts[k][0])}, {lean_chars(h, tconsts[k][1])}, {TYPESET_ATTR[k]})" for k in keys)
+            trows.append(f"  ({h.lean_str(name)}, [{cells}])")
+    # every caller of typeset's own `parse` must pass one of them
+    for rel in sorted(files):
+        src = non_test(strip_comments(h.read(rel)))
+        if "typeset" not in src:
+            continue
+        for m in re.finditer(r"(?<![\w:.])(?:syntax::)?parse\(\s*([A-Za-z_][\w:]*)\s*,\s*Mode::", src):
+            tn = m.group(1).split("::")[-1]
+            if not any(c == tn and r == (rel if not rel.endswith("typeset.rs") else f"{SRC}/typeset/syntax.rs") for (r, c) in typeset_tables):
+                h.fail(f"args: {rel} passes table {tn} to typeset's parse but it was not extracted as a typeset table")
+    if len(trows) < 3:
+        h.fail(f"args: only {len(trows)} tables of the typeset family found (anchor lost?)")
+    out.append("/-- tables handed to typeset/syntax.rs `parse`: short name, long name, attr (0 = None, 1 = ReadOnly, 2 = Export) -/")
+    out.append("def typesetTables : List (String × List (Char × List Char × Nat)) := [\n" + ",\n".join(trows) + "]\n")
+    out.append("/-- typeset/syntax.rs `interpret`: the letters its `match option.spec.short` knows, with their role (sorted) -/")
+    out.append("def interpretLetters : List (Char × String) := ["
+               + ", ".join(f"({h.lean_char(c)}, {h.lean_str(r)})" for c, r in interpret_letters(h)) + "]\n")
     out.append("def all : List (String × List Row) := [\n"
                + ",\n".join(f"  ({h.lean_str(n)}, specs_{n})" for n, _, _, _ in tables) + "]\n")
     h.write("ArgSpecs", "\n".join(out))
